@@ -5,7 +5,7 @@
 #include <string.h>
 int main(int argc, char** argv) {
   int bad = 0;
-  const char* cases[] = { "plain", "a\nb", "say \"hi\"", "back\\slash", "\t", "", "a?b'c" };
+  const char* cases[] = { "plain", "a\nb", "say \"hi\"", "back\\slash", "\t", "", "a?b'c", "100%", "a%%b", "%d items", "%" };
   for (size_t i = 0; i < sizeof(cases) / sizeof(cases[0]); i++) {
     var txt = new(String, $S("")); int w = show_to($S((char*)cases[i]), txt, 0);
     var back = new(String, $S("junk")); int r = look_from(back, txt, 0);
